@@ -429,7 +429,8 @@ pub fn poolchange_case(p: &Profile) -> BoxedStrategy<Case> {
         cfg.despawn_without_quiescence = dwq;
         cfg.level = Level::Desync;
         if two {
-            if late && acts.iter().any(|a| matches!(a, RootAct::Despawn)) && !acts.iter().any(|a| matches!(a, RootAct::SpawnThread)) {
+            // (the same for a raise of the maximum through the public setter that is not forced to be atomic)
+            if late && acts.iter().any(|a| matches!(a, RootAct::Despawn | RootAct::SetPoolPublic { atomic: false, .. })) && !acts.iter().any(|a| matches!(a, RootAct::SpawnThread)) {
                 ph1.root_late = true;
                 ph1.callers = simple_callers;
                 ph1.wakers = vec![];
@@ -677,6 +678,7 @@ pub fn labels(id: &str, case: &Case, out: &Outcome) -> Vec<String> {
     flag(s.stream_self_wakes > 0, "stream-woke-itself-during-poll_next");
     flag(s.chained_closes > 0, "stream-ended-by-drop-of-another-pipe");
     flag(s.concurrent_despawns > 0, "despawn-concurrent-with-scheduling-calls");
+    flag(s.concurrent_raises > 0, "maximum-raised-concurrently-with-scheduling-calls");
     flag(s.stream_drop_wakes > 0, "stream-woke-its-waker-from-its-destructor");
     flag(s.consumer_probe_pending > 0, "consumer-polled-with-two-wakers");
     flag(s.unwinding_last_owner_drops > 0, "last-owner-dropped-while-unwinding");
